@@ -67,6 +67,8 @@ class Spec:
         self.mods = {}            # ir -> ordered list of modules
         self.name = {}
         self.payload = {}
+        self.track = False
+        self.broke_distinct = False
 
     def copy(self):
         s = Spec()
@@ -142,6 +144,11 @@ class Spec:
         self.parent[v] = p
         if self.kind[v] == "module":
             self.mods[p].append(v)
+        # the property's hypothesis covers every moment, also between the
+        # elementary moves of one call (e.g. `^=` attaching one node before
+        # detaching another with the same uuid)
+        if self.track and not self.distinct():
+            self.broke_distinct = True
 
     def apply(self, op):
         """op: tuple. Mutates self; returns exception name or None. Raises
@@ -832,13 +839,15 @@ class History:
                 op = (op[0], op[1], op[2], order, it)
         # ---- specification first, on a copy (to test the quantifier)
         trial = sp.copy()
+        trial.track = True
         outside = None
         try:
             want_exc = trial.apply(op)
         except Outside as o:
             outside = str(o)
             want_exc = None
-        if outside is None and want_exc is None and not trial.distinct():
+        if outside is None and want_exc is None and (
+                trial.broke_distinct or not trial.distinct()):
             return True      # outside the property's quantifier: skip the op
         line = op_line(op)
         self.script.append(line)
